@@ -14,6 +14,7 @@ INVARIANT UnexpiredPreferred
 INVARIANT ExpiredStillServed
 INVARIANT ListenerIndependent
 INVARIANT ReloadReplacesCertificates
+INVARIANT FailedReloadKeepsCertificates
 INVARIANT ResultShape
 INVARIANT Emit
 CHECK_DEADLOCK FALSE
